@@ -10,12 +10,16 @@ import numlib as nl
 
 ID = "C18"
 MODULES = ["Bezier"]
-LEAN_TARGETS = ["Props.C18"]
+LEAN_TARGETS = ["Props.C18", "Props.C18G"]
 ANCHORS = ["cyecca/models/bezier.py"]
 MISSING = [
-    "De Casteljau = Bernstein and the derivative rule for EVERY degree n by induction over a hand model "
-    "(proved here for the translated degrees 1..7, the ones the repository ships are 3 and 7)",
+    "EVERY degree and derivative order: theorems of Props/C18G over the hand model Model/Bezier.lean (De Casteljau = Bernstein, end points, "
+    "deriv(m).eval = m-th iterated derivative for all n, m <= n), tied to the real class by the correspondence run of this check "
+    "(degrees 1..12, every order, float / integer / list / DM / SX control points) and to the translated programs of degree 3 and 7 by a theorem; "
+    "the tie of the generic model to the class is sampled, not proved",
 ]
+TRUSTED_EXTRA = ["hand model Model/Bezier.lean of Bezier.eval / Bezier.deriv for every degree: tied to the class by differential runs "
+                 "(relative tolerance 1e-11: T**m is a repeated product in the model) and, at degrees 3 and 7, proved equal to the translated program"]
 
 
 def relevant(fn):
@@ -36,6 +40,131 @@ def bern_poly(Pk, T):
             term = Pl.polymul(term, omb)
         tot = Pl.polyadd(tot, term)
     return tot
+
+
+def _bits(x):
+    import struct
+    return str(struct.unpack("<Q", struct.pack("<d", float(x)))[0])
+
+
+def _unbits(w):
+    import struct
+    return struct.unpack("<d", struct.pack("<Q", int(w)))[0]
+
+
+def _lean_bezier(lines):
+    import os, subprocess
+    VERIF = os.path.dirname(os.path.dirname(os.path.dirname(os.path.abspath(__file__))))
+    LEAN = os.path.join(VERIF, "lean")
+    drv = os.path.join(VERIF, "work", "driver", "c18_%d.lean" % os.getpid())
+    os.makedirs(os.path.dirname(drv), exist_ok=True)
+    with open(drv, "w") as fh:
+        fh.write("import Model.BezierIO\ndef main : IO Unit := BezierModel.loop\n")
+    try:
+        rc = subprocess.run(["lake", "build", "Model.BezierIO"], cwd=LEAN, capture_output=True, text=True)
+        if rc.returncode != 0:
+            raise RuntimeError("model does not build: " + (rc.stdout + rc.stderr)[-800:])
+        p = subprocess.run(["lake", "env", "lean", "--run", drv], cwd=LEAN, input="\n".join(lines) + "\n", capture_output=True, text=True)
+        if p.returncode != 0:
+            raise RuntimeError("model driver failed: " + p.stderr[-800:])
+        return p.stdout.splitlines()
+    finally:
+        os.remove(drv)
+
+
+KINDS = ["ndarray-float", "ndarray-int", "DM", "SX", "list"]
+
+
+def make_points(kind, rows):
+    """the same control points in the container kinds a caller may hand to Bezier(P, T)"""
+    import casadi as ca
+    if kind == "ndarray-float":
+        return np.array(rows, dtype=float)
+    if kind == "ndarray-int":
+        return np.array(rows, dtype=np.int64)
+    if kind == "DM":
+        return ca.DM(np.array(rows, dtype=float))
+    if kind == "SX":
+        return ca.SX(ca.DM(np.array(rows, dtype=float)))
+    return ca.DM([list(map(float, r)) for r in rows])
+
+
+def real_curve_values(kind, rows, T, t, m):
+    """Bezier(P, T).deriv(m).eval(t) (m = 0: eval) through the real class, one float per row"""
+    import casadi as ca
+    import cyecca.models.bezier as bz
+    B = bz.Bezier(make_points(kind, rows), T)
+    C = B if m == 0 else B.deriv(m)
+    v = C.eval(t)
+    try:
+        arr = np.array(ca.DM(ca.densify(ca.SX(v))), dtype=float).ravel()
+    except Exception:   # noqa: BLE001  (a numeric container)
+        arr = np.array(v, dtype=float).ravel()
+    return arr
+
+
+def gen_cases(rng, n):
+    """(kind, rows, T, t, m): degrees 1..12, every order 0..degree, integer-valued points for the integer containers"""
+    cases = []
+    for it in range(n):
+        N = int(rng.integers(1, 13)) if it % 3 else int(rng.integers(1, 5))
+        dim = int(rng.integers(1, 4))
+        kind = KINDS[it % len(KINDS)]
+        if kind == "ndarray-int" or rng.random() < 0.2:
+            rows = rng.integers(-9, 10, size=(dim, N + 1)).astype(float)
+        else:
+            rows = np.round(rng.standard_normal((dim, N + 1)) * 3, 6)
+        T = float(rng.choice([0.5, 1.0, 2.0, 3.0, 7.5]))
+        if rng.random() < 0.25:
+            T = int(rng.choice([1, 2, 4]))       # integer duration
+        t = float(rng.choice([0.0, float(T), rng.uniform(0, T), rng.uniform(0, T), rng.uniform(-0.4 * T, 1.4 * T)]))
+        for m in sorted(set([0, N, int(rng.integers(0, N + 1)), int(rng.integers(0, N + 1))])):
+            cases.append((kind, rows.tolist(), T, t, m))
+    return cases
+
+
+def tie(ctx):
+    """correspondence of the generic-degree hand model (Model/Bezier.lean, Float instance) with the real class"""
+    rng = np.random.default_rng(ctx.seed + 18018)
+    cases = gen_cases(rng, 60 if ctx.tier == "quick" else 600)
+    lines, index = [], []
+    for ci, (kind, rows, T, t, m) in enumerate(cases):
+        for r, row in enumerate(rows):
+            lines.append("%d %d %s %s %s" % (len(row) - 1, m, _bits(T), _bits(t), " ".join(_bits(x) for x in row)))
+            index.append((ci, r))
+    out = _lean_bezier(lines)
+    model = {}
+    for (ci, r), w in zip(index, out):
+        model[(ci, r)] = float("nan") if w.startswith("ERR") else _unbits(w)
+    hist = {"kinds": {}, "degrees": {}, "orders": {}, "rows": 0, "mismatches": 0, "max_rel": 0.0}
+    bad = []
+    for ci, (kind, rows, T, t, m) in enumerate(cases):
+        N = len(rows[0]) - 1
+        hist["kinds"][kind] = hist["kinds"].get(kind, 0) + 1
+        hist["degrees"][str(N)] = hist["degrees"].get(str(N), 0) + 1
+        hist["orders"][str(m)] = hist["orders"].get(str(m), 0) + 1
+        try:
+            got = real_curve_values(kind, rows, T, t, m)
+        except Exception as e:   # noqa: BLE001
+            got = None; err = "%s: %s" % (type(e).__name__, str(e)[:120])
+        for r, row in enumerate(rows):
+            hist["rows"] += 1
+            mv = model[(ci, r)]
+            sc = (1 + max(abs(x) for x in row)) * (2 * (1 + abs(t) / T)) ** N * max(1.0, (2 * N / T)) ** m
+            if got is None or len(got) != len(rows):
+                rel = float("inf")
+            else:
+                rel = abs(got[r] - mv) / sc
+            hist["max_rel"] = max(hist["max_rel"], rel if np.isfinite(rel) else 1e300)
+            if not rel <= 1e-11:
+                hist["mismatches"] += 1
+                if len(bad) < 5:
+                    bad.append({"kind": kind, "degree": N, "order": m, "row": r, "P": row, "T": T, "t": t,
+                                "model": mv, "real": None if got is None else (got[r] if len(got) == len(rows) else got.tolist()),
+                                "error": None if got is not None else err})
+    ctx.extra["bezier_model_tie"] = hist
+    if bad:
+        ctx.fail("tie:bezier-model", "correspondence", {"first": bad, "mismatches": hist["mismatches"], "rows": hist["rows"]})
 
 
 def search(ctx):
@@ -76,6 +205,27 @@ def search(ctx):
                             report("eval:vector:deriv%d" % m, "vector-valued curve: derivative of order %d is not the exact derivative (row %d of %d, degree %d)" % (m, r, dim, N),
                                    inp, abs(got - ref) if np.isfinite(got) else 1e9, 1e-9 * scm)
                         c = Pl.polyder(c)
+    # the class itself on every container kind a caller may pass, every order 0..degree (oracle: numpy polynomial algebra)
+    for (kind, rows, T, t, m) in gen_cases(np.random.default_rng(ctx.seed + 77), 25 if ctx.tier == "quick" else 300):
+        N = len(rows[0]) - 1
+        inp = {"kind": kind, "P": rows, "T": T, "t": t, "order": m, "degree": N}
+        try:
+            got = real_curve_values(kind, rows, T, t, m)
+        except Exception as e:   # noqa: BLE001
+            report("class:%s:raises" % kind, "Bezier(P, T).deriv(%d).eval raises for %s control points: %s" % (m, kind, type(e).__name__), inp, 1.0, 0); continue
+        ev += 1; distinct += 1
+        for r, row in enumerate(rows):
+            c = bern_poly(np.array(row, dtype=float), float(T))
+            for _ in range(m):
+                c = Pl.polyder(c)
+            ref = Pl.polyval(t, c) if len(c) else 0.0
+            sc = (1 + max(abs(x) for x in row)) * (2 * (1 + abs(t) / T)) ** N * max(1.0, (2 * N / T)) ** m
+            g = got[r] if len(got) == len(rows) else float("nan")
+            if not abs(g - ref) <= 1e-9 * sc:
+                report("class:%s:order%s" % (kind, "=degree" if m == N else ("0" if m == 0 else "<degree")),
+                       "Bezier(P, T)%s.eval(t) is not the %s of the Bernstein polynomial (%s control points, degree %d, order %d)"
+                       % ("" if m == 0 else ".deriv(%d)" % m, "value" if m == 0 else "exact derivative", kind, N, m),
+                       inp, abs(g - ref) if np.isfinite(g) else 1e9, 1e-9 * sc)
     for N in range(1, 8):
         f = nl.F("Bezier", "bezier.eval%d" % N)
         for it in range(n):
